@@ -6,7 +6,7 @@ import math
 
 from . import c02 as C02
 from . import c02_util as U
-from .common import add_failure, bump, new_outcome
+from .common import add_failure, bump, new_outcome, rat, unrat
 
 PROP = "C11"
 PROPS_FILES = ["CogentModel/Props/C11.lean"]
@@ -21,7 +21,8 @@ TRUSTED = [
 ]
 ASSUMPTIONS = [
     "reversibility (detailed balance of every edge's P w.r.t. the root distribution) and P(s)P(t)=P(s+t) are hypotheses of the "
-    "theorems; the harness measures them on the extracted float64 matrices and reports the residuals",
+    "theorems; the correspondence measures them exactly (driver command `hyp`) on the extracted float64 matrices of up to 8 (quick) / "
+    "200 (thorough) problems per run and reports residuals > 1e-9 for reversible models; histograms in the evidence file",
     "float rounding bounded by the stated tolerance, not modelled: |delta lnL| <= 1e-8*|lnL| + sum over columns of 2e-14/lh(column) "
     "(absolute error of the float64 matrix exponential relative to the column likelihood); problems with a column likelihood <= 0 are skipped and counted",
 ]
@@ -458,11 +459,79 @@ def spec_check(ctx, budget):
     return out
 
 
+def _mat_rat(P):
+    return [[rat(float(x)) for x in row] for row in P]
+
+
+def _hypotheses(ctx, specs, rng, out, limit):
+    """the HYPOTHESES of lh_reroot_* (detailed balance of every edge's P w.r.t. the root distribution) and of
+    lh_edge_split (P1 * P2 == P, with the model's own matMul) measured in exact arithmetic by the driver (`hyp`) on the
+    float64 matrices of real likelihood functions: reversible models must meet them to 1e-9 (else the theorems do not
+    speak about that run: reported), the non-reversible GN/ssGN serve as the control that the measure discriminates"""
+    done = 0
+    for spec in specs:
+        if done >= limit:
+            break
+        if spec["model"] in U.DISCRETE or any(k in spec for k in ("split_edge", "how", "merged_zero", "has_zero")):
+            continue
+        done += 1
+        rev = spec["model"] not in NONREV
+        try:
+            lf = U.build_lf(spec, None)
+            ex = U.extract(lf, spec, profiles="impl")
+            cands = [c for _, c in _edges(spec["tree"]) if c["len"]]
+            ex2 = edge = None
+            if cands:
+                edge = rng.choice(cands)["name"]
+                s2, _ = t_split_edge(spec, edge, _rand_piece(rng, [c for c in cands if c["name"] == edge][0]["len"]), rng.random() < 0.5)
+                ex2 = U.extract(U.build_lf(s2, None), s2, profiles="impl")
+        except Exception as e:
+            add_failure(out, "corr", "hypothesis measurement: building the likelihood function raised", C02._slim(spec), "a likelihood function",
+                        f"{type(e).__name__}: {e}", confirmed=False)
+            continue
+        reqs, meta = [], []
+        for b, bn in enumerate(ex["bins"]):
+            pi = [rat(float(x)) for x in bn["pi"]]
+            for e, P in zip(ex["edges"], bn["P"]):
+                req = dict(m=ex["m"], pi=pi, P=_mat_rat(P))
+                if ex2 is not None and e == edge:
+                    b2 = ex2["bins"][b]
+                    req["P1"] = _mat_rat(b2["P"][ex2["edges"].index("splitnode")])
+                    req["P2"] = _mat_rat(b2["P"][ex2["edges"].index(edge)])
+                reqs.append(("hyp", req))
+                meta.append((b, e))
+        for (b, e), r in zip(meta, ctx.driver.batch(reqs)):
+            out["evaluations"] += 1
+            if "error" in r:
+                add_failure(out, "corr", "driver error (hyp)", C02._slim(spec), "reply", r["error"], confirmed=False)
+                break
+            db, rows = float(unrat(r["db"])), float(unrat(r["rows"]))
+            lg = lambda x: "exact" if x == 0 else max(-20, int(math.floor(math.log10(x))))
+            bump(out, "detailed_balance_residual_log10:" + ("reversible" if rev else "nonreversible"), lg(db))
+            bump(out, "row_sum_residual_log10", lg(rows))
+            if rows > 1e-9 or (rev and db > 1e-9):
+                add_failure(out, "corr", "theorem hypothesis (detailed balance / row-stochastic P) not met by the implementation's matrices",
+                            dict(C02._slim(spec), edge=e, bin=b), "<= 1e-9", dict(detailed_balance=db, row_sum=rows), confirmed=False)
+            elif rev:
+                out["nontrivial"].add((spec["model"], spec["seed"], "hyp-db", e, b))
+            if r.get("split") is not None:
+                sp = float(unrat(r["split"]))
+                bump(out, "split_product_residual_log10", lg(sp))
+                if sp > 1e-9:
+                    add_failure(out, "corr", "theorem hypothesis P1*P2 == P (lh_edge_split) not met by the implementation's matrices",
+                                dict(C02._slim(spec), edge=e, bin=b), "<= 1e-9", sp, confirmed=False)
+                else:
+                    out["nontrivial"].add((spec["model"], spec["seed"], "hyp-split", e, b))
+
+
 def correspondence(ctx):
     out = new_outcome(
         "the shared pruning model vs the implementation (C02's shadow, leaf arrays from the implementation) on original "
         "and transformed (re-rooted incl. unary old roots, unrooted, midpoint-rooted, edge-split, child-reordered) problems; "
-        "non-trivial = >= 2 unique columns"
+        "plus the theorem hypotheses measured exactly on the implementation's matrices (driver `hyp`: detailed balance of every "
+        "edge/bin P w.r.t. the root distribution, row sums, P(upper piece)*P(lower piece) == P(edge) through the model's matMul "
+        "for one split edge per problem; reversible models must meet them to 1e-9, GN/ssGN are the control); "
+        "non-trivial = >= 2 unique columns / hypothesis met on a reversible problem"
     )
     rng = ctx.subrng("corr")
     U.BIG_BINS = ctx.thorough
@@ -477,6 +546,7 @@ def correspondence(ctx):
     # relational failures found on the way are genuine spec failures
     out["failures"] += [f for f in rel["failures"] if f["kind"] == "spec"]
     C02.evaluate(ctx, specs, None, "impl", 0, out, "corr")
+    _hypotheses(ctx, specs, rng, out, 200 if ctx.thorough else 8)
     return out
 
 
